@@ -346,6 +346,34 @@ def impl_oracle(pid, C, pg, T):
 
 # ------------------------------------------------------------------------------------------------
 
+def identify_rows(tier, seed):
+    """C17, last clause ("each is identified as itself and as no other"): the tabulated primitive operations of every UNI
+    number, in their own setting and (a seed-dependent third in quick, all in thorough) re-based by a random unimodular matrix
+    and origin shift, through the real `MagneticSpaceGroup::new` (cases of checks/stages_magid.py, `mag-id-gen`): the returned
+    UNI number must be the row's.  Judged on the implementation's answer alone."""
+    from checks import stages_magid, pipe
+    key = pipe.tree_key()
+    cdir = os.path.join(vlib.WORK, "magcache", key)
+    os.makedirs(cdir, exist_ok=True)
+    cases = os.path.join(cdir, f"magid_{tier}_{seed}.cases")
+    with vlib.Lock(f"magid_{tier}_{seed}"):
+        if not os.path.exists(cases):
+            stages_magid.generate(tier, seed, cases)
+    reqs, exps = vlib.read_cases(cases)
+    n, re_n, bad = 0, 0, []
+    for q, e in zip(reqs, exps):
+        m = re.match(r"s5m t(\d+)(-re\d+)? ;", q)
+        if not m:
+            continue
+        n += 1
+        re_n += 1 if m.group(2) else 0
+        u = int(m.group(1))
+        em = re.match(r"\s*ok ; uni (\d+) ;", e)
+        if not em or int(em.group(1)) != u:
+            bad.append((u, q.split(" ")[1], e.strip()[:200], q))
+    return n, re_n, bad
+
+
 def run_tables(pid, tier, seed):
     run = vlib.Run(pid, tier, seed, "proof")
     cov = run.coverage
@@ -480,6 +508,17 @@ def run_tables(pid, tier, seed):
                 failing.append(("wyckoff-hall", h, a[:400], f"wyckcheck {h}"))
         cov["wyckoff_hall_numbers_failing"] = len([f for f in failing if f[0] == "wyckoff-hall"])
 
+    # ---- C17: every tabulated group is identified as itself by the real identification (own and re-based settings)
+    ident_bad = []
+    if pid == "C17":
+        try:
+            nid, nre, ident_bad = identify_rows(tier, seed)
+            cov["identified_as_itself_rows"] = nid
+            cov["identified_as_itself_rebased_rows"] = nre
+            cov["identified_as_itself_failures"] = len(ident_bad)
+        except RuntimeError as ex:
+            broken.append("mag-id-gen failed: " + str(ex)[-1500:])
+
     # ---- decide
     if failing:
         kind, n, v, rq = failing[0]
@@ -497,6 +536,12 @@ def run_tables(pid, tier, seed):
         if broken:
             text += ["", "also:"] + broken
         run.violation("failing_row_impl.txt", "\n".join(text), key=f"row:{kind.replace(' ', '-')}:{n}")
+    elif ident_bad:
+        u, tag, ans, q = ident_bad[0]
+        text = [f"uni {u}: not identified as itself: MagneticSpaceGroup::new on the tabulated primitive operations ({tag}: own setting, or -re: re-based by a "
+                f"unimodular matrix and origin shift) answers: {ans}", "request (operations with exact floats): " + q[:3000], "",
+                f"all rows not identified as themselves ({len(ident_bad)}):"] + [f"  uni {a} ({b}): {c[:100]}" for a, b, c, _ in ident_bad[:100]]
+        run.violation("not_identified_as_itself.txt", "\n".join(text), key=f"ident:{u}")
     elif mism or broken:
         lines = list(broken)
         if mism:
@@ -537,6 +582,18 @@ def replay_impl(pid, path, txt):
 def replay_tables(pid, path):
     txt = open(path).read()
     vlib.build_harness()
+    if "not identified as itself" in txt:
+        seed = int(os.environ.get("VERIF_SEED", "0") or 0)
+        rc = 0
+        for tier in ("quick", "thorough"):
+            _, _, bad = identify_rows(tier, seed)
+            for u, tag, ans, _ in bad[:20]:
+                print(f"uni {u} ({tag}) not identified as itself: {ans[:150]}")
+                rc = 1
+            if rc:
+                break
+        print(f"VIOLATION property={pid} replay={path}" if rc else "every row is identified as itself on the current tree")
+        return rc
     if SCREEN or "judged on the implementation's own tables" in txt:
         return replay_impl(pid, path, txt)
     vlib.translate()
